@@ -667,6 +667,11 @@ class vDatetime(TimeBase):
     def to_ical(self):
         dt = self.dt
         tzid = tzid_from_dt(dt)
+        if tzid is None and dt.utcoffset() is not None:
+            # a time zone without id and name (pytz.FixedOffset): without
+            # a TZID the instant can only be written in UTC
+            dt = tzp.localize_utc(dt)
+            tzid = 'UTC'
 
         s = f"{dt.year:04}{dt.month:02}{dt.day:02}T{dt.hour:02}{dt.minute:02}{dt.second:02}"
         if tzid == 'UTC':
